@@ -29,7 +29,7 @@ from srcgen import Tok, matching   # noqa: E402
 from rustlite import Untranslatable, U8_METHODS   # noqa: E402
 
 LEAN_TY = {"vec": "Bytes", "string": "Bytes", "u8": "UInt8", "bool": "Bool", "usize": "Nat", "vecstr": "List Bytes",
-           "time": "Int", "dur": "Int", "unit": "Unit", "msgvec": "Nat", "map": "List (Bytes × List Bytes)"}
+           "time": "Int", "dur": "Int", "unit": "Unit", "msgvec": "Nat", "map": "List (Bytes × List Bytes)", "vecpair": "List (Bytes × Bytes)"}
 
 KINDS = ["ExpiredToken", "IO", "InternalServiceError", "InvalidBodyEncoding", "InvalidClientTokenId", "InvalidContentType",
          "InvalidRequestMethod", "IncompleteSignature", "InvalidURIPath", "MalformedQueryString", "MissingAuthenticationToken",
@@ -171,6 +171,10 @@ class OFn:
                 raise Untranslatable("self." + g + "()")
             self.pos += 5
             r = ("self_" + g, self.ctx["self_getters"][g])
+        elif t.k == "id" and t.v == "self" and self.at(".", 1) and self.peek(2).k == "id" and not self.at("(", 3) and self.peek(2).v in self.ctx.get("self_fields", {}):
+            g = self.peek(2).v
+            self.pos += 3
+            r = ("self_" + g, self.ctx["self_fields"][g])
         elif t.k == "p" and t.v == "(":
             self.eat(); e, ty = self.expr(0); self.eat(")"); r = (f"({e})", ty)
         elif t.k == "p" and t.v in ("*",):
@@ -226,7 +230,10 @@ class OFn:
                 a = [("_", "usize")]
             else:
                 a = self.args()
-            if m == "new" and not a and self.ctx.get("_msgvec_next"):
+            if m == "new" and not a and self.ctx.get("_vecpair_next"):
+                self.ctx["_vecpair_next"] = False
+                r = ("([] : List (Bytes × Bytes))", "vecpair")
+            elif m == "new" and not a and self.ctx.get("_msgvec_next"):
                 self.ctx["_msgvec_next"] = False
                 r = ("(0 : Nat)", "msgvec")
             elif m == "new" and not a:
@@ -308,7 +315,7 @@ class OFn:
                         r = (f"(← Rust.idx {e} ({a}) {self.sitestr('index')})", "u8")
             elif self.at(".") and self.peek(1).k == "id":
                 m = self.peek(1).v
-                if m in ("push", "extend", "extend_from_slice", "remove") and ty in ("vec", "vecstr", "string", "msgvec") and e in self.types:
+                if m in ("push", "extend", "extend_from_slice", "remove", "sort", "sort_unstable") and ty in ("vec", "vecstr", "string", "msgvec", "vecpair") and e in self.types:
                     return r            # statement-level methods: handled by stmt()
                 self.eat("."); self.eat()
                 if m in ("as_bytes", "as_slice", "to_string", "clone", "to_owned", "as_str", "into_owned", "as_ref") and ty in ("vec", "string", "msg", "vecstr"):
@@ -323,6 +330,26 @@ class OFn:
                     if a[0][1] != "u8":
                         raise Untranslatable("starts_with(non-char)")
                     r = (f"(Rust.startsWithByte {e} {a[0][0]})", "bool")
+                elif m == "into_iter" and ty == "vecpair":
+                    self.eat("("); self.eat(")")
+                    self.eat("."); self.eat("map"); self.eat("("); self.eat("|"); self.eat("(")
+                    k = self.eat(k="id").v; self.eat(","); v = self.eat(k="id").v; self.eat(")"); self.eat("|")
+                    self.eat("format"); self.eat("!"); self.eat("(")
+                    fmt = self.eat(k="str").v
+                    self.eat(","); self.eat(k); self.eat(","); self.eat(v); self.eat(")"); self.eat(")")
+                    if bytes(fmt) != b"{}={}":
+                        raise Untranslatable("format string")
+                    self.eat("."); self.eat("collect")
+                    if self.at("::"):
+                        self.eat(); self.eat("<")
+                        d = 1
+                        while d:
+                            tk = self.eat()
+                            if tk.v == "<": d += 1
+                            if tk.v == ">": d -= 1
+                            if tk.v == ">>": d -= 2
+                    self.eat("("); self.eat(")")
+                    r = (f"(List.map (fun kv => kv.1 ++ [(0x3D : UInt8)] ++ kv.2) {e})", "vecstr")
                 elif m == "join" and ty == "vecstr":
                     a = self.args(); r = (f"(Rust.join {a[0][0]} {e})", "string")
                 elif m == "split" and ty == "string":
@@ -366,6 +393,12 @@ class OFn:
                         raise Untranslatable("format string other than %Y%m%d / %Y%m%dT%H%M%SZ in value position")
                 elif m == "is_empty" and ty == "msgvec":
                     self.eat("("); self.eat(")"); r = (f"({e} == 0)", "bool")
+                elif m == "iter" and ty == "vecstr":
+                    self.eat("("); self.eat(")")
+                    r = (e, ty)
+                elif m == "get" and ty == "map":
+                    a = self.args()
+                    r = (f"(Rust.mapGet {e} {a[0][0]})", "opt:vecstr")
                 elif m == "splitn" and ty == "string":
                     a = self.args()
                     if a[0][0] != "2" or a[1][1] != "u8":
@@ -470,6 +503,9 @@ class OFn:
                     if tk[j].k == "id" and tk[j].v == nm and tk[j + 1].v == "." and tk[j + 2].v == "push" and tk[j + 3].v == "(" and tk[j + 4].v == "format" and tk[j + 5].v == "!":
                         self.ctx["_msgvec_next"] = True
                         break
+                    if tk[j].k == "id" and tk[j].v == nm and tk[j + 1].v == "." and tk[j + 2].v == "push" and tk[j + 3].v == "(" and tk[j + 4].v == "(":
+                        self.ctx["_vecpair_next"] = True
+                        break
             self.eat()
             mut = False
             if self.at("mut"):
@@ -496,12 +532,56 @@ class OFn:
             ty = decl or ty
             if ty == "num":
                 ty = "usize"
+            if isinstance(ty, str) and ty == "opt:vecstr":
+                self.types[name] = ty
+                return [f"{ind}let {name} : Option (List Bytes) := {e}"]
             if not isinstance(ty, str) or (ty not in LEAN_TY and not ty.startswith("enum:")):
                 raise Untranslatable(f"type of let {name}: {ty}")
             self.types[name] = ty
             return [f"{ind}let {'mut ' if mut else ''}{name} : {lean_ty(ty)} {'←' if monadic_rhs else ':='} {e}"]
+        if t.k == "id" and t.v == "if" and self.at("let", 1) and self.at("Some", 2) and self.peek(7).k == "id" and str(self.types.get(self.peek(7).v, "")).startswith("opt:") and self.at("{", 8):
+            # if let Some(x) = optvar { … }   (no else branch)
+            self.eat("if"); self.eat("let"); self.eat("Some"); self.eat("(")
+            x = self.eat(k="id").v
+            self.eat(")"); self.eat("=")
+            o = self.eat(k="id").v
+            oty = self.types[o]
+            saved = self.types.get(x)
+            self.types[x] = oty[4:]
+            body = self.block(ind + "  ")
+            if self.at("else"):
+                raise Untranslatable("if let … else")
+            if saved is None:
+                del self.types[x]
+            else:
+                self.types[x] = saved
+            return [f"{ind}match {o} with", f"{ind}| some {x} =>"] + body + [f"{ind}| none => pure ()"]
         if t.k == "id" and t.v == "if" and self.at("let", 1):
             return self.if_let_map_push(ind)
+        if t.k == "id" and t.v == "for" and self.at("(", 1):
+            # for (i, x) in xs.iter().enumerate() { … }
+            self.eat("for"); self.eat("(")
+            i = self.eat(k="id").v; self.eat(","); x = self.eat(k="id").v; self.eat(")"); self.eat("in")
+            xs = self.eat(k="id").v
+            if self.types.get(xs) == "map":
+                # for (key, values) in map.iter() { … }: the entries, in the order the representation lists them
+                self.eat("."); self.eat("iter"); self.eat("("); self.eat(")")
+                self.types[i] = "string"
+                self.types[x] = "vecstr"
+                self.in_for = getattr(self, "in_for", 0) + 1
+                body = self.block(ind + "  ")
+                self.in_for -= 1
+                return [f"{ind}for ({i}, {x}) in {xs} do"] + body
+            if self.types.get(xs) != "vecstr":
+                raise Untranslatable("enumerate over " + xs)
+            self.eat("."); self.eat("iter"); self.eat("("); self.eat(")"); self.eat("."); self.eat("enumerate"); self.eat("("); self.eat(")")
+            self.types[i] = "usize"
+            self.types[x] = "string"
+            start = self.pos
+            body = self.block(ind + "  ")
+            if any(tk.k == "id" and tk.v in ("continue", "break") for tk in self.toks[start:self.pos]):
+                raise Untranslatable("continue/break inside an enumerate loop")
+            return [f"{ind}let mut {i} : Nat := 0", f"{ind}for {x} in {xs} do"] + body + [f"{ind}  {i} := {i} + 1"]
         if t.k == "id" and t.v == "if":
             return self.if_stmt(ind)
         if t.k == "id" and t.v == "for":
@@ -559,8 +639,23 @@ class OFn:
                 return [f"{ind}{name} := (← {f} {name} ({i}) {e} {self.sitestr('index-assign')})"]
             if n1.k == "p" and n1.v == ".":
                 m = self.peek(2).v
+                if m == "push" and ty == "vecpair":
+                    self.eat(); self.eat("."); self.eat("push"); self.eat("("); self.eat("(")
+                    a1, t1 = self.expr(0); self.eat(","); a2, t2 = self.expr(0); self.eat(")"); self.eat(")")
+                    if self.at(";"):
+                        self.eat(";")
+                    if t1 != "string" or t2 != "string":
+                        raise Untranslatable("pair of non-strings")
+                    return [f"{ind}{name} := {name} ++ [({a1}, {a2})]"]
+                if m in ("sort_unstable", "sort") and ty == "vecpair":
+                    self.eat(); self.eat("."); self.eat(); self.eat("("); self.eat(")"); self.eat(";")
+                    return [f"{ind}{name} := Rust.sortPairs {name}"]
                 if m in ("push", "extend", "extend_from_slice", "remove"):
-                    self.eat(); self.eat("."); self.eat(); a = self.args(); self.eat(";")
+                    self.eat(); self.eat("."); self.eat(); a = self.args()
+                    if self.at(";"):
+                        self.eat(";")
+                    elif not self.at("}"):
+                        raise Untranslatable("expected ; or }")
                     if m == "push" and ty == "msgvec":
                         if a[0][1] != "msg":
                             raise Untranslatable("push of a non-message onto a message list")
@@ -675,7 +770,7 @@ def translate_result_fn(name, params, ret, body, ctx):
     sig, ptys = [], []
     for p in split_params(params):
         if [t.v for t in p] == ["&", "self"]:
-            for g, gty in ctx.get("self_getters", {}).items():
+            for g, gty in list(ctx.get("self_getters", {}).items()) + list(ctx.get("self_fields", {}).items()):
                 f.types["self_" + g] = gty
                 ptys.append(gty)
                 sig.append(f"(self_{g} : {lean_ty(gty)})")
@@ -698,7 +793,7 @@ def translate_result_fn(name, params, ret, body, ctx):
         is_stmt = t.k == "id" and (t.v in STMT_START) and not (t.v == "if" and _if_is_tail(f))
         if t.k == "id" and t.v == "match":
             is_stmt = _match_is_stmt(f)
-        if t.k == "id" and t.v in f.types and f.peek(1).k == "p" and (f.peek(1).v in ("=", "[", "+", "-") or (f.peek(1).v == "." and f.peek(2).v in ("push", "extend", "extend_from_slice", "remove"))):
+        if t.k == "id" and t.v in f.types and f.peek(1).k == "p" and (f.peek(1).v in ("=", "[", "+", "-") or (f.peek(1).v == "." and f.peek(2).v in ("push", "extend", "extend_from_slice", "remove", "sort", "sort_unstable"))):
             is_stmt = True
         if not is_stmt:
             break
